@@ -158,11 +158,17 @@ def full_nary_pattern(case):
 def classify(case, verdict, eng_out):
     """finding key: join kind + operand count + structure class + what goes wrong (+ body clause when values differ)."""
     what = verdict.split(':', 1)[1]
-    if full_nary_pattern(case) and what in ('engine-duplicate-keys', 'keys', 'value'):
+    if case.get('kind') == 'full' and case.get('nops', 0) >= 3 and (
+            what == 'engine-duplicate-keys' or (full_nary_pattern(case) and what in ('keys', 'value'))):
+        # duplicated identifiers out of an n-ary full join (operands may be expressions, so the data pattern is only
+        # required for the other symptoms)
         return 'full_join:n-ary:key-absent-from-first-operand-present-in-two-later-operands'
     body_l = case.get('body') or []
-    if what == 'engine-error' and eng_out[0] == 'raw' and 'apply' in body_l and ('rename' in body_l or 'drop' in body_l) and 'BinderException' in eng_out[1]:
-        return 'join-body:apply-followed-by-drop-or-rename:BinderException'
+    if 'apply' in body_l and ('rename' in body_l or 'drop' in body_l) and (
+            (what == 'engine-error' and eng_out[0] == 'raw' and 'BinderException' in eng_out[1]) or what in ('columns-vs-components', 'measures')):
+        # apply is transpiled against the statement's final structure, the later clause against the pre-apply one:
+        # either DuckDB rejects the SQL or the computed measure is missing from the returned data
+        return 'join-body:apply-followed-by-drop-or-rename'
     head = '%s_join:%dops:%s' % (case['kind'], case['nops'], case['struct'])
     if case.get('variant', 'plain') != 'plain':
         head += ':' + case['variant']
@@ -317,7 +323,10 @@ def main(ck):
     ck.assumptions += ['VTL join semantics as restated in lean/VtlModel/Sem/Join.lean, validated against the Reference-Manual examples RM006-RM012 '
                        '(apply is modelled as the equivalent calc+keep; aggr body, attributes / viral attributes and the VTL 2.2 nvl join clause are not modelled)',
                        'well-typed scripts (cases rejected by semantic analysis are counted, not compared)',
-                       'a `using` key that is a measure must belong to the first (reference) operand']
+                       'a `using` key that is a measure must belong to the first (reference) operand',
+                       'interpretations adopted in the corpus cases: a bare component name that matches exactly one remaining alias#comp refers to it '
+                       '(as the engine does in filter/calc/keep); a bare name matching several is ambiguous and must be rejected; the order in which a '
+                       'structure declares its identifiers is irrelevant']
 
 
 vlib.run_check('C04', main)
